@@ -212,7 +212,7 @@ Lemma chan_step_spec sx st who k a v :
   (k < length (t_raw (nth who (threads st) dummy_thread)))%nat ->
   match chan_step sx st who k a v with
   | Ok (st', d) => exists b, raw_apply (spec_of sx k) (raw_of st who k) a v = Ok (raw_of st' who k, b) /\
-                             d = (if b then Some (who, k) else None)
+                             d = (if b then [(who, k)] else [])
   | Err e => raw_apply (spec_of sx k) (raw_of st who k) a v = Err e
   end.
 Proof.
